@@ -10,7 +10,9 @@ concrete octets and symbolic items
 
 This evaluates the *definition of a data layout* (loop-free apart from whole-block copies); anything
 else raises NotEvaluable and is reported as not evaluated, never guessed."""
+import json
 from . import evalx
+from .facts import walk
 from .pieceeval import PieceEval, Ret, Brk
 
 
@@ -72,6 +74,37 @@ class PacketEval(PieceEval):
                 return self.bits[nm]
         if k == 'call' and e.get('f') in self.stubs:
             return self.stubs[e['f']]
+        if k == 'call' and self.prog is not None and e.get('fid') in self.prog.funcs and self.depth < 3:
+            # a value-returning helper of the library (a length computed in a file-static function): evaluate its definition
+            g = self.prog.funcs[e['fid']]
+            if g.get('body'):
+                sub = PacketEval(g, {}, {}, {}, self.prog, out=None, depth=self.depth + 1, stubs=self.stubs)
+                refs = []
+                for prm, ae in zip(g['params'], e.get('a', [])):
+                    a = strip(ae)
+                    nm = self.pname.get(a.get('id')) if isinstance(a, dict) and a.get('k') == 'var' else None
+                    if isinstance(a, dict) and a.get('k') == 'var' and prm['t'].endswith('&') and not prm['t'].startswith('const') and 'vector' not in prm['t']:
+                        refs.append((prm['id'], a['id']))       # a scalar handed over by reference: written back afterwards
+                    if nm is not None and nm in self.bits:
+                        sub.bits[prm['n']] = self.bits[nm]
+                    elif nm is not None and nm in self.sizes:
+                        sub.sizes[prm['n']] = self.sizes[nm]
+                    else:
+                        try:
+                            sub.env[prm['id']] = evalx.wrap(self.ev(ae), prm['t'].replace('&', '').replace('const ', '').strip())
+                        except evalx.NotEvaluable:
+                            pass
+                rv = None
+                try:
+                    sub.stmt(g['body'])
+                except Ret as r:
+                    rv = r.v
+                for pid_, vid_ in refs:
+                    if pid_ in sub.env:
+                        self.env[vid_] = sub.env[pid_]
+                if rv is not None:
+                    return rv
+                raise evalx.NotEvaluable('helper %s returns no value' % g['q'])
         return PieceEval.call(self, e, env)
 
     def block_of(self, x):
@@ -152,6 +185,11 @@ class PacketEval(PieceEval):
                     b = self.block_of(a1['o'])
                     v.extend(b if isinstance(b, list) else [b])
                     return
+                # out.insert(out.end(), P, P + N) with a pointer argument P
+                if whole(a0, 'end') and strip(a0['o'])['id'] == strip(s['o'])['id'] and a1.get('k') == 'var' and a1.get('t', '').endswith('*') and \
+                        a2.get('k') == 'bin' and a2.get('op') == '+' and strip(a2['a'][0]).get('id') == a1.get('id') and a1['id'] in self.pname:
+                    v.append(('blk', self.pname[a1['id']], self.ev(a2['a'][1])))
+                    return
                 raise evalx.NotEvaluable('insert form')
             if short in ('reserve', 'clear'):
                 if short == 'clear':
@@ -226,6 +264,10 @@ class PacketEval(PieceEval):
                         sub.sizes[prm['n']] = self.sizes[self.pname[a['id']]]
                         sub.alias = getattr(sub, 'alias', {})
                         sub.alias[prm['n']] = self.pname[a['id']]
+                    elif a.get('k') == 'var' and self.pname.get(a['id']) in self.bits:
+                        sub.bits[prm['n']] = self.bits[self.pname[a['id']]]
+                        sub.alias = getattr(sub, 'alias', {})
+                        sub.alias[prm['n']] = self.pname[a['id']]
                     else:
                         sub.env[prm['id']] = evalx.wrap(self.ev(ae), prm['t'].replace('&', '').replace('const ', '').strip())
                 n0 = {vid: len(v) for vid, v in sub.vec.items()}
@@ -237,10 +279,27 @@ class PacketEval(PieceEval):
                 if al:
                     for vid, v in sub.vec.items():
                         for i in range(n0.get(vid, 0), len(v)):
-                            if isinstance(v[i], tuple) and v[i][0] == 'blk' and v[i][1] in al:
-                                v[i] = ('blk', al[v[i][1]], v[i][2])
+                            if isinstance(v[i], tuple) and v[i][0] in ('blk', 'mpi', 'slice', 'oct') and v[i][1] in al:
+                                v[i] = (v[i][0], al[v[i][1]]) + tuple(v[i][2:])
                 return
+            if name == 'copy' and len(args) == 3:
+                # std::copy(P.begin(), P.end(), std::back_inserter(out))
+                dst = strip(args[2])
+                inner = None
+                for x in walk(dst) if isinstance(dst, dict) else []:
+                    if x.get('k') == 'var' and x.get('id') in self.vec:
+                        inner = x['id']
+                b, e2 = strip(args[0]), strip(args[1])
+
+                def whole2(x, which):
+                    return isinstance(x, dict) and x.get('k') == 'mcall' and x['f'].split('::')[-1] in (which, 'c' + which) and strip(x['o']).get('k') == 'var'
+                if inner is not None and 'back_insert' in json.dumps(dst) and whole2(b, 'begin') and whole2(e2, 'end') and strip(b['o'])['id'] == strip(e2['o'])['id']:
+                    blk = self.block_of(b['o'])
+                    self.vec[inner].extend(blk if isinstance(blk, list) else [blk])
+                    return
             if not tracked:
+                if any(x.get('k') == 'var' and x.get('id') in self.vec for a_ in args for x in (walk(a_) if isinstance(a_, dict) else [])):
+                    raise evalx.NotEvaluable('call ' + name + ' receives the output indirectly')
                 return                  # does not touch the output (diagnostics, gcry handles)
             raise evalx.NotEvaluable('call ' + name)
         if k == 'opcall' and s.get('op') == '<<':
